@@ -839,7 +839,9 @@ func (c *clipperBase) doHorizontal(horz *Active) {
 		}
 
 		for ae != nil {
-			if ae.vertexTop == vertexMax {
+			// an open path keeps horizontal spikes, so its maxima pair can lie under an earlier
+			// segment of the run: it is the pair only once the run's last segment is being swept
+			if ae.vertexTop == vertexMax && (horz.vertexTop == vertexMax || !isOpen(horz)) {
 				if isHotEdge(horz) && isJoined(ae) {
 					c.split(ae, ae.top)
 				}
